@@ -206,32 +206,74 @@ def _flags_polars_sort(chk, pol, sort, items):
 
 
 def _marker_peeling(chk, repo, sym):
+    """Order.from_col_expr is a pure function from an expression shape to (expression, descending, nulls_last): it is
+    interpreted from its source (interp.Interp) on every chain of up to three ordering markers over a column and over a
+    non-marker function - whatever way the loop is written.  Expected: markers are peeled from the outside, the
+    outermost direction / null marker wins, no marker means ascending and `nulls_last=None`, peeling stops at the first
+    node that is not a marker."""
+    import itertools
+
+    from ..catalogue import _ModuleNS
+    from ..interp import ExcCtor, IClass, Interp, Obj, PyRaise
+
     ce = repo.mod("tree.col_expr")
     f = ce.func("Order.from_col_expr")
-    found = {}
-    for n in ast.walk(f):
-        if isinstance(n, ast.If) and isinstance(n.test, ast.Compare) and len(n.test.ops) == 1 and isinstance(n.test.ops[0], ast.Eq):
-            if norm(n.test.left).endswith(".op"):
-                op = dotted(n.test.comparators[0]) or ""
-                for st in n.body:
-                    if isinstance(st, ast.Assign) and isinstance(st.value, ast.Constant):
-                        found[op.split(".")[-1]] = (norm(st.targets[0]), st.value.value)
-    want = {"descending": ("descending", True), "ascending": ("descending", False), "nulls_last": ("nulls_last", True), "nulls_first": ("nulls_last", False)}
-    for op, exp in want.items():
-        chk.ob("R3", ce, f, f"marker ops.{op} -> {exp[0]} = {exp[1]}", found.get(op) == exp,
-               f"Order.from_col_expr maps the marker `{op}` to {found.get(op)} instead of {exp}")  # fmt: skip
-    ret = [s for s in ast.walk(f) if isinstance(s, ast.Return) and isinstance(s.value, ast.Call) and dotted(s.value.func) == "Order"]
+    stub = ast.parse(
+        "class ColFn:\n    op: object = None\n    args: object = None\n    context_kwargs: object = None\n"
+        "class Col:\n    name: object = None\n"
+        "class Marker:\n    name: object = None\n"
+        "class Operator:\n    name: object = None\n"
+        "class Order:\n    order_by: object = None\n    descending: object = None\n    nulls_last: object = None\n"
+    )
+    env: dict = {}
+    it = Interp(ce, env)
+    for c in stub.body:
+        c.decorator_list = [ast.Name(id="dataclass", ctx=ast.Load())]
+        env[c.name] = it.make_class(c, env)
+    # the field order of the real Order dataclass decides what the positional arguments of Order(..) mean
     fields = list(sym.cls("Order").dataclass_fields())
-    good = bool(ret) and [norm(a) for a in ret[-1].value.args][1:] == fields[1:3]
-    chk.ob("R3", ce, f, f"returns Order(expr, {', '.join(fields[1:3])})", good,
-           "Order.from_col_expr passes descending / nulls_last in the wrong positions of Order(..)")  # fmt: skip
-    # default when no marker: ascending
-    dflt = any(isinstance(n, ast.If) and norm(n.test) == "descending is None" and any(norm(s) == "descending = False" for s in n.body) for n in ast.walk(f))
-    chk.ob("R3", ce, f, "no marker -> descending = False", dflt, "the default direction without a marker is no longer ascending")
-    # markers are peeled only from the top, the loop stops at the first non-marker
-    loop = next((n for n in ast.walk(f) if isinstance(n, ast.While)), None)
-    good = loop is not None and any(isinstance(n, ast.If) and "Marker" in norm(n.test) for n in ast.walk(loop)) and any(isinstance(n, ast.Break) for n in ast.walk(loop))
-    chk.ob("R3", ce, f, "peels Marker operators only, stops at the first other node", good, "marker peeling no longer stops at the first non-marker node")
+    env["Order"].fields = [(n, ast.Constant(value=None)) for n in fields]
+    for c in ("ColFn", "Col", "Marker", "Operator", "Order"):
+        env[c].is_dataclass = True
+
+    def mk(cls, **kw):
+        o = Obj(env[cls])
+        o.attrs.update(kw)
+        return o
+
+    markers = {n: mk("Marker", name=n) for n in ("descending", "ascending", "nulls_last", "nulls_first")}
+    other = mk("Operator", name="abs")
+    env["ops"] = _ModuleNS(dict(markers))
+    env["ColExpr"] = (env["ColFn"], env["Col"])
+    env["TypeError"] = ExcCtor("TypeError")
+    from ..interp import Func
+
+    fn = Func(f, env, it)
+    n_cases = 0
+    bad = []
+    base_col = mk("Col", name="a")
+    base_fn = mk("ColFn", op=other, args=[base_col], context_kwargs={})
+    for base in (base_col, base_fn):
+        for k in range(0, 4):
+            for chain in itertools.product(markers, repeat=k):
+                e = base
+                for mname in reversed(chain):  # chain[0] is the outermost marker
+                    e = mk("ColFn", op=markers[mname], args=[e], context_kwargs={})
+                n_cases += 1
+                want_desc = next((mn == "descending" for mn in chain if mn in ("descending", "ascending")), False)
+                want_nl = next((mn == "nulls_last" for mn in chain if mn in ("nulls_last", "nulls_first")), None)
+                try:
+                    r = it.call(fn, [e], {}, f, env)
+                except PyRaise as p:
+                    bad.append((chain, f"raises {p.name}"))
+                    continue
+                got = (r.attrs.get(fields[0]), r.attrs.get(fields[1]), r.attrs.get(fields[2])) if isinstance(r, Obj) else None
+                if got is None or got[0] is not base or got[1] is not want_desc or got[2] is not want_nl:
+                    shown = None if got is None else ("<base>" if got[0] is base else "<other node>", got[1], got[2])
+                    bad.append((chain, f"-> {shown}, expected ('<base>', {want_desc}, {want_nl})"))
+    chk.ob("R3", ce, f, f"Order.from_col_expr interpreted on {n_cases} marker chains: outermost marker wins, default ascending / nulls unspecified, stops at the first non-marker",
+           not bad and n_cases >= 100,
+           f"Order.from_col_expr gives a wrong ordering for {len(bad)} of {n_cases} marker chains, e.g. markers (outermost first) {bad[0][0] if bad else ''} {bad[0][1] if bad else ''}")  # fmt: skip
 
 
 def _grouping_injection(chk, repo):
